@@ -131,8 +131,13 @@ Connection(v) ==
              \* (an empty string / empty mapping in place of the list iterates like an empty list: "no protect entries" - the property allows either outcome, observation O-6)
              entries == IF prot \in {S(""), Mp(<<>>)} THEN <<Either>> ELSE IF prot.k # "list" THEN <<Err>>
                         ELSE [i \in 1..Len(prot.v) |-> ProtectEntry(prot.v[i], Val(my), Val(peer))]
-             \* a proposal has at least one transform (RFC 7296 3.3): four empty lists cannot be loaded to anything
-             some == IF Combine(<<encr, integ, prf, dh>>) = "ok" /\ encr.n \o integ.n \o prf.n \o dh.n = <<>> THEN Err ELSE Ok(TRUE)
+             \* an IKE_SA needs one transform of each of the four types (RFC 7296 3.3.3: ENCR, PRF, INTEG and D-H are mandatory for IKE): a connection with an
+             \* empty list cannot negotiate anything - the first ACQUIRE or IKE_SA_INIT would find no transform of that type - and is rejected when it is loaded
+             \* (the property allows both outcomes for "exactly the listed algorithms: none"; what it does not allow - C17 - is a daemon that loads it and dies later;
+             \*  four empty lists cannot be loaded to anything: a proposal has at least one transform)
+             some == IF Combine(<<encr, integ, prf, dh>>) # "ok" THEN Ok(TRUE)
+                     ELSE IF encr.n \o integ.n \o prf.n \o dh.n = <<>> THEN Err
+                     ELSE IF encr.n = <<>> \/ integ.n = <<>> \/ prf.n = <<>> \/ dh.n = <<>> THEN Either ELSE Ok(TRUE)
              all == <<my, peer, ma, pa, encr, integ, prf, dh, some, life, dpd, listens>> \o entries
          IN IF Combine(all) # "ok" THEN [c |-> Combine(all)]
             ELSE Ok([my_addr |-> my.n, peer_addr |-> peer.n, my_auth |-> ma.n, peer_auth |-> pa.n, encr |-> encr.n, integ |-> integ.n, prf |-> prf.n,
@@ -207,7 +212,7 @@ Conn2(prot) == Mp([my_addr |-> S("192.168.0.1"), peer_addr |-> S("10.9.9.9"), my
 MultiCases == {[level |-> "multi", key |-> "pair", val |-> Null, top |-> Mp([c1 |-> Mp(SetKey(BaseConn, "protect", Lst(<<WithIdx(p, 11), WithIdx(q, 12)>>)))])] : p, q \in ProtVariants}
               \cup {[level |-> "multi", key |-> "two-connections", val |-> Null,
                      top |-> Mp([c1 |-> Mp(SetKey(BaseConn, "protect", Lst(<<WithIdx(p, 11)>>))), c2 |-> Conn2(<<WithIdx(q, 12), WithIdx(p, 13)>>)])] : p, q \in ProtVariants}
-\* rules that span several keys: the algorithm lists of a connection may be empty one by one (the listed algorithms, exactly) but not all at once
+\* rules that span several keys / empty lists of a connection (the lists of a protect entry may be empty: the defaults of the peer decide)
 EmptyLists(keys) == [x \in DOMAIN BaseConn |-> IF x \in keys THEN Lst(<<>>) ELSE BaseConn[x]]
 CrossCases == {[level |-> "multi", key |-> "empty-lists", val |-> Null, top |-> Mp([c1 |-> Mp(EmptyLists(ks))])] :
                  ks \in {{"encr", "integ", "prf", "dh"}, {"encr", "integ", "prf"}, {"integ", "prf", "dh"}, {"encr", "dh"}}}
